@@ -299,6 +299,11 @@ def run(case, ctx):
             if st_.get("mixed"):
                 ctx.label("mixed_flavours_convergence_skipped")
                 continue
+            if step.get("hooks") and any(os.path.basename(r_) in ("pyproject.toml", "ruff.toml", ".ruff.toml", "setup.cfg") for r_ in st_["user"]):
+                # the default hooks run ruff, which reads the nearest configuration file: a user's own one changes what the hooks do,
+                # which is not the generator's doing
+                ctx.label("hooks_with_user_tool_configuration_convergence_skipped")
+                continue
             fresh_parent = env.fresh_dir("c19fresh")
             fresh_sandbox = os.path.join(fresh_parent, "sandbox")
             os.makedirs(fresh_sandbox)
